@@ -36,6 +36,9 @@ def run(ctx: Ctx) -> None:
     rule_rep_dispatch(ctx)
     numeric.rule_hermitian_args(ctx, DMF, ["fidelity", "trace_distance"])
     numeric.rule_spectral_sqrt(ctx)
+    # the cross-representation clause goes through convert_representation('dm') -> stabilizer_to_density (known finding shared with C08)
+    from .c08 import rule_density_signs
+    rule_density_signs(ctx)
     shapes.rule_trace_distance_shape(ctx)
     ctx.floor("num.adjoint", 15)
     ctx.floor("num.raise-warning", 8)
